@@ -18,6 +18,8 @@
 #include "src/pdsh/opt.h"
 #include "src/pdsh/mod.h"
 #include <sys/stat.h>
+#include <netinet/in.h>
+#include <unistd.h>
 
 static void lean_str(const char *name, const char *s)
 {
@@ -103,5 +105,15 @@ int main(void)
     LEAN_NAT("MO_S_IFMT", S_IFMT);
     LEAN_NAT("MO_S_IFDIR", S_IFDIR);
     LEAN_NAT("MO_S_IFREG", S_IFREG);
+    /* xrcmd.c: the reserved-port range of the rsh handshake */
+    LEAN_NAT("MO_IPPORT_RESERVED", IPPORT_RESERVED);
+    /* opt.c login_name_max_len(): the limit on -l / user@ names on this machine */
+    {
+        long v = -1;
+#ifdef _SC_LOGIN_NAME_MAX
+        v = sysconf(_SC_LOGIN_NAME_MAX);
+#endif
+        LEAN_NAT("MO_LOGIN_NAME_MAX", v > 0 ? v : 16);
+    }
     return 0;
 }
